@@ -106,10 +106,9 @@ class Uniform(base.Mutator):
         new_child_node = pg.random_dna(
             child_node.spec, self._random, previous_dna=child_node)
       if new_child_node is not None:
-        # NOTE(daiyip): we update the children without invalidating the internal
-        # states of the DNA for better performance.
-        parent_node.children.rebind(
-            {child_index: new_child_node}, skip_notification=True)
+        # NOTE: the ancestors are notified, so that lookups cached by `where`
+        # on this (cloned) DNA do not outlive the change.
+        parent_node.children.rebind({child_index: new_child_node})
         if _node_needs_sorting(child_node.spec):
           parent_spec = child_node.spec.parent_spec
           children = sorted(parent_node.children, key=lambda c: c.value)
@@ -118,7 +117,7 @@ class Uniform(base.Mutator):
           assert len(children) == parent_spec.num_choices
           for i, child in enumerate(children):
             child.use_spec(parent_spec.subchoice(i))
-          parent_node.rebind(children=children, skip_notification=True)
+          parent_node.rebind(children=children)
       return dna
 
   def _get_relationships(self, dna: pg.DNA) -> Tuple[
